@@ -163,6 +163,13 @@ WBXML_DECLARE(WBXMLError) wbxml_conv_wbxml2xml_run(WBXMLConvWBXML2XML *conv,
     params.keep_ignorable_ws = conv->keep_ignorable_ws;
     params.indent            = conv->indent;
 
+    /* No output yet, whatever happens */
+    if (xml != NULL)
+        *xml = NULL;
+
+    if (xml_len != NULL)
+        *xml_len = 0;
+
     /* Check Parameters (we allow 'xml_len' to be NULL for backward compatibility) */
     if ((wbxml == NULL) || (wbxml_len == 0) || (xml == NULL))
         return WBXML_ERROR_BAD_PARAMETER;
@@ -285,6 +292,13 @@ WBXML_DECLARE(WBXMLError) wbxml_conv_xml2wbxml_run(WBXMLConvXML2WBXML *conv,
     WBXMLTree *wbxml_tree = NULL;
     WBXMLError ret = WBXML_OK;
     WBXMLGenWBXMLParams params;
+
+    /* No output yet, whatever happens */
+    if (wbxml != NULL)
+        *wbxml = NULL;
+
+    if (wbxml_len != NULL)
+        *wbxml_len = 0;
 
     /* Check Parameters */
     if ((xml == NULL) || (xml_len == 0) || (wbxml == NULL) || (wbxml_len == NULL))
